@@ -207,3 +207,71 @@ def self_check() -> int:
     maps = position_map_members([n for n in ast.walk(tree) if isinstance(n, ast.ClassDef)])
     _, _, hits = scan_module(tree, maps)
     return len(hits)
+
+
+# --------------------------------------------------------------------------- sign tests on signed order indexes
+def strict_zero_tests(fn: ast.AST) -> List[Tuple[int, str, str]]:
+    """A signed order index is >= 0 for a base element (0 is the FIRST element) and < 0 for an insertion.  `idx > 0` /
+    `idx <= 0` on an item of an order misclassifies element 0.  -> [(line, test, iterated expression)]"""
+    assigns: Dict[str, ast.expr] = {}
+    for n in ast.walk(fn):
+        if isinstance(n, ast.Assign) and len(n.targets) == 1 and isinstance(n.targets[0], ast.Name):
+            assigns.setdefault(n.targets[0].id, n.value)
+    out = []
+    for lp in ast.walk(fn):
+        if not isinstance(lp, (ast.For, ast.comprehension)) or not isinstance(lp.target, ast.Name):
+            continue
+        it = lp.iter
+        it_text = u(assigns.get(it.id, it)) if isinstance(it, ast.Name) else u(it)
+        full = (u(it) + " " + it_text).lower()
+        if "order" not in full and "_idxs" not in full:
+            continue
+        var = lp.target.id
+        scope = (lp.ifs if isinstance(lp, ast.comprehension) else lp.body)
+        # the element expression of a comprehension is not reachable from the `comprehension` node: scan the whole function
+        # for comparisons of this variable - a name is rarely reused for something else inside one function
+        for c in ast.walk(fn):
+            if isinstance(c, ast.Compare) and len(c.ops) == 1:
+                l, r, op = c.left, c.comparators[0], c.ops[0]
+                zero = lambda x: isinstance(x, ast.Constant) and x.value == 0 and not isinstance(x.value, bool)
+                if isinstance(l, ast.Name) and l.id == var and zero(r) and isinstance(op, (ast.Gt, ast.LtE)):
+                    out.append((c.lineno, u(c), u(it)[:60]))
+                elif isinstance(r, ast.Name) and r.id == var and zero(l) and isinstance(op, (ast.Lt, ast.GtE)):
+                    out.append((c.lineno, u(c), u(it)[:60]))
+    seen, uniq = set(), []
+    for x in out:
+        if (x[0], x[1]) not in seen:
+            seen.add((x[0], x[1]))
+            uniq.append(x)
+    return uniq
+
+
+SIGN_CONTROL = '''
+def _display_order(self):
+    order = self._order
+    if self._prune_subtotals:
+        order = tuple(idx for idx in order if not isinstance(idx, str) and idx > 0)
+    return np.array(order)
+
+def ok(self):
+    return [idx for idx in self._order if idx >= 0] + [i for i in self._order if i < 0]
+'''
+
+
+def sign_self_check() -> int:
+    t = ast.parse(SIGN_CONTROL)
+    return sum(len(strict_zero_tests(f)) for f in t.body)
+
+
+def scan_sign_tests(repo, shorts):
+    n, hits = 0, []
+    for mod in repo.modules.values():
+        short = mod.path.split("cr/cube/")[-1]
+        if short not in shorts:
+            continue
+        for ci in mod.classes.values():
+            for m in ci.members.values():
+                n += 1
+                for _line, test, it in strict_zero_tests(m.node):
+                    hits.append((f"{short}::{ci.name}.{m.name} [{test}]", test, it))
+    return n, hits
